@@ -340,7 +340,16 @@ func (h *hist) exec(o opDesc, checkpoint bool) {
 	}
 	h.audit()
 
-	// ---- what the model has to reproduce: changed link-level records, forest at checkpoints ----
+	forest := "None"
+	if checkpoint {
+		forest = "(Some " + h.coqForest() + ")"
+	}
+	h.observe(coqOp, ret, forest)
+}
+
+// observe records what the model has to reproduce for one operation: the returned label, the
+// changed link-level fields of all labelled nodes, and (at check points) the forest.
+func (h *hist) observe(coqOp string, ret int, forest string) {
 	var delta []string
 	for i, n := range h.byLab {
 		r := h.record(n)
@@ -355,12 +364,38 @@ func (h *hist) exec(o opDesc, checkpoint bool) {
 	for i := 0; i < len(h.byLab); i++ {
 		h.snap[i] = h.record(h.byLab[i])
 	}
-	forest := "None"
-	if checkpoint {
-		forest = "(Some " + h.coqForest() + ")"
-	}
 	h.coqOps = append(h.coqOps, coqOp)
 	h.coqObs = append(h.coqObs, fmt.Sprintf("mkObs %d %s%%N %s", ret, vh.CoqList(delta), forest))
+}
+
+// execRaw performs an operation WITHOUT regard to the API preconditions (re-attaching an
+// attached node, making a node its own child, releasing twice) and without any oracle: such
+// scripts only check that the model transcribes node.go faithfully where the property's
+// guarantees do not apply.  Nodes are named by creation number and never forgotten.
+func (h *hist) execRaw(o opDesc, names map[int]*idr.Node) {
+	switch o.Op {
+	case "create":
+		n := idr.CreateNode(idr.NodeType(o.Ty), o.Data)
+		choice := "Fresh"
+		if l, known := h.lab[n]; known {
+			choice = "(FromPool " + coqPos(l) + ")"
+		}
+		names[o.N] = n
+		h.observe(fmt.Sprintf("OCreate %s %d %s FNone", choice, o.Ty, vh.CoqHex([]byte(o.Data))), h.label(n), "None")
+	case "add":
+		idr.AddChild(names[o.P], names[o.N])
+		h.observe(fmt.Sprintf("OAdd %s %s", coqPos(h.lab[names[o.P]]), coqPos(h.lab[names[o.N]])), 0, "None")
+	case "remove":
+		idr.RemoveAndReleaseTree(names[o.N])
+		h.observe("ORemove "+coqPos(h.lab[names[o.N]]), 0, "None")
+	}
+	h.ops = append(h.ops, o)
+}
+
+// coqLooseCase prints a history that is replayed without the precondition / representation
+// checks (hc_strict = false).
+func (h *hist) coqLooseCase() string {
+	return fmt.Sprintf("HCase (mkHCase %s false %s %s [])", vh.CoqBool(h.caching), vh.CoqList(h.coqOps), vh.CoqList(h.coqObs))
 }
 
 func (h *hist) coqShape(x int, sb *strings.Builder) {
@@ -497,7 +532,7 @@ func (h *hist) coqCase() string {
 		h.coqPayload(r, &sb)
 		finals = append(finals, sb.String())
 	}
-	return fmt.Sprintf("HCase (mkHCase %s %s %s %s)", vh.CoqBool(h.caching), vh.CoqList(h.coqOps), vh.CoqList(h.coqObs), vh.CoqList(finals))
+	return fmt.Sprintf("HCase (mkHCase %s true %s %s %s)", vh.CoqBool(h.caching), vh.CoqList(h.coqOps), vh.CoqList(h.coqObs), vh.CoqList(finals))
 }
 
 // ---- generation ---------------------------------------------------------------------------------
